@@ -112,6 +112,41 @@ def leaves(ev, t, depth=0):
     return out
 
 
+SUMMARISED = {
+    "autograd.numpy.numpy_vjps.unbroadcast",
+    "autograd.numpy.numpy_vjps.match_complex",
+    "autograd.numpy.numpy_vjps.repeat_to_match_shape",
+    "autograd.numpy.numpy_jvps.broadcast",
+}
+
+
+def deep_leaves(ev, t, limit=64):
+    """like leaves(), but a leaf that is a call to an inlinable repo helper is expanded and flattened too"""
+    out = []
+
+    def rec(t, conds, depth):
+        if t is None or len(out) > limit:
+            return
+        if t.op == "if":
+            rec(t.then, conds + [(t.cond, True)], depth)
+            rec(t.other, conds + [(t.cond, False)], depth)
+        elif t.op == "seq":
+            rec(t.value, conds, depth)
+        elif t.op == "raise":
+            return
+        elif t.op == "call" and depth < 6 and not (t.fn.op == "ref" and t.fn.ref.qual in SUMMARISED):
+            r = ev.inline(t)
+            if r is not None and r.op in ("if", "seq"):
+                rec(r, conds, depth + 1)
+            else:
+                out.append((conds, t))
+        else:
+            out.append((conds, t))
+
+    rec(t, [], 0)
+    return out
+
+
 def build_all(repo, table, max_depth=6):
     ev = Evaluator(repo, max_depth)
     out = {}
